@@ -27,6 +27,7 @@ func c14Directed(rng *RNG) []Case {
 	// chains: which manifests to push (in order), which one gets the tag
 	chains := [][]string{
 		{"m1"}, {"m1", "i1"}, {"m1", "m2", "i1", "i2"}, {"m1", "i3-wrongtype"}, {"m1", "m2"}, {"m3-layer3", "m1", "i1"}, {"opaque"},
+		{"docker-child", "opaque", "m1", "i-foreign"},
 	}
 	for _, chain := range chains {
 		for tagged := range chain {
